@@ -130,6 +130,7 @@ func runC02(w *World, r *Report) {
 	r.Min("R7", 8)
 	r.Min("R8", 5)
 	c02ConfigGetters(w, r)
+	c02TransactionIdentity(w, r)
 	r.Min("R9", 2)
 }
 
@@ -659,5 +660,59 @@ func c02ConfigGetters(w *World, r *Report) {
 			}
 		}
 		r.Check(ok && n == 1, "R7", "ConcurrentConfig."+g+"/own-field-in-seconds", f.Pos(), "%s returns %s x 1s (default only when the field is 0) %v", g, field, got)
+	}
+}
+
+// c02TransactionIdentity: the transaction objects the flows see are built from
+// the SPOE message field by field, each field from the message field of the
+// same name (the request id is the key under which quota slots are taken and
+// given back; the sequence id is a different thing), and a fixed-window quota
+// sitting between a request and a concurrent ancestor forwards every release
+// to its parent.
+func c02TransactionIdentity(w *World, r *Report) {
+	const pkgSTypes = "lunar/engine/streams/types"
+	for _, c := range []struct{ fn, lit string }{{"NewResponse", "OnResponse"}, {"NewRequest", "OnRequest"}} {
+		f := w.Fn(pkgSTypes, c.fn)
+		if f == nil {
+			r.Undec("R6", c.fn, token.NoPos, "function not found")
+			continue
+		}
+		var lit *ssa.Alloc
+		Instrs(f, func(in ssa.Instruction) {
+			if a, ok := in.(*ssa.Alloc); ok && structOf(a.Type()) == c.lit && a.Heap {
+				lit = a
+			}
+		})
+		if lit == nil {
+			r.Undec("R6", c.fn+"/literal", f.Pos(), "%s literal not found", c.lit)
+			continue
+		}
+		mm, n := sameNameCopyMismatches(lit)
+		id := litField(lit, "ID")
+		r.Check(len(mm) == 0 && n >= 5 && id != nil && strings.HasSuffix(Path(id), ".ID"), "R6", c.fn+"/fields-from-same-named-message-fields", lit.Pos(), "%d fields of the transaction are copied from the message field of the same name (ID <- %s); mismatches %v", n, trunc(Path(id), 40), mm)
+	}
+	if dec := w.Fn(pkgQuota, "fixedWindow.Dec"); dec == nil {
+		r.Undec("R8", "fixedWindow.Dec", token.NoPos, "function not found")
+	} else {
+		n, ok := 0, true
+		var why []string
+		for _, c := range CallsIn(dec, false, "QuotaResourceI).Dec") {
+			if !strings.Contains(Path(c.Common().Value), ".parent") {
+				continue
+			}
+			n++
+			for _, cd := range expandConds(CondsOf(c.Block())) {
+				p := Path(cd.V)
+				if rel, isRel := NormCond(cd); isRel && (strings.HasSuffix(Path(rel.L), ".parent") || strings.HasSuffix(Path(rel.R), ".parent")) {
+					continue // parent != nil
+				}
+				if rel, isRel := NormCond(cd); isRel && (isNilConst(rel.L) || isNilConst(rel.R)) && strings.Contains(p, "getQuota(") && strings.Contains(p, "#1") {
+					continue // the group's quota object was obtained without error
+				}
+				ok = false
+				why = append(why, trunc(p, 60))
+			}
+		}
+		r.Check(ok && n == 1, "R8", "fixedWindow.Dec/release-always-forwarded-to-parent", dec.Pos(), "a fixed-window quota under another quota forwards every Dec to its parent whenever it has one (extra conditions %v): the ancestor's concurrency slot is given back", why)
 	}
 }
